@@ -1,0 +1,46 @@
+//go:build verif
+// +build verif
+
+// Verification hook (property C15): a JoinedGroupStorage holding supplied group records in its
+// cache, with no group chain behind it. Add-only; compiled only with -tags verif.
+package access
+
+import (
+	"errors"
+
+	"com.tuntun.rangers/node/src/consensus/model"
+	"com.tuntun.rangers/node/src/core"
+)
+
+type verifR1NopLogger struct{}
+
+func (verifR1NopLogger) Tracef(format string, params ...interface{})       {}
+func (verifR1NopLogger) Debugf(format string, params ...interface{})       {}
+func (verifR1NopLogger) Infof(format string, params ...interface{})        {}
+func (verifR1NopLogger) Warnf(format string, params ...interface{}) error  { return nil }
+func (verifR1NopLogger) Errorf(format string, params ...interface{}) error { return nil }
+func (verifR1NopLogger) Debug(v ...interface{})                            {}
+func (verifR1NopLogger) Info(v ...interface{})                             {}
+func (verifR1NopLogger) Warn(v ...interface{}) error                       { return nil }
+func (verifR1NopLogger) Error(v ...interface{}) error                      { return nil }
+
+// verifR1NoChain answers every joined-group lookup with "absent" and stores nothing.
+type verifR1NoChain struct{ core.GroupChain }
+
+func (verifR1NoChain) GetJoinedGroup(id []byte) ([]byte, error)     { return nil, errors.New("absent") }
+func (verifR1NoChain) SaveJoinedGroup(id []byte, value []byte) bool { return true }
+func (verifR1NoChain) DeleteJoinedGroup(id []byte) bool             { return true }
+
+// VerifR1NewJoinedGroupStorage returns a storage whose cache holds exactly the given records
+// (what JoinGroup would have put there); groups not listed are reported as not joined.
+func VerifR1NewJoinedGroupStorage(infos ...*model.JoinedGroupInfo) *JoinedGroupStorage {
+	if logger == nil {
+		logger = verifR1NopLogger{}
+	}
+	s := &JoinedGroupStorage{groupChain: verifR1NoChain{}}
+	s.initStore()
+	for _, jg := range infos {
+		s.cache.Add(jg.GroupID.GetHexString(), jg)
+	}
+	return s
+}
